@@ -41,16 +41,35 @@ def showMsg (m : Msg) : String :=
   let cl := match m.cl with | some n => toString n | none => "none"
   s!"{showOptBytes m.raw},{showOptBytes m.ce},{if m.te then 1 else 0},{cl}"
 
-def doOp (s : State) (op : Op) (fresh : Res) : State × String :=
+/-- driver session: the model state plus the last bytes value a `dec` / `get` op returned — so that the histories'
+    value modes `last` (`m.content = m.content`-style re-assignment) and `rawof j` (another message's raw body) are
+    RESOLVED BY THE MODEL from its own state, not copied from the implementation's run -/
+structure Sess where
+  st : State
+  last : Bytes
+
+def doOp (ss : Sess) (op : Op) (fresh : Res) : Sess × String :=
+  let s := ss.st
   let nd := need s op
   let (s', r) := stepWith s op fresh
-  (s', s!"{showRes r} {showNeed nd} {showCache s'.cache} {showMsg s'.m0} {showMsg s'.m1}")
+  let last' := match op, r with
+    | .dec _ _ _, .ok b => b
+    | .getContent _ _, .ok b => b
+    | _, _ => ss.last
+  (⟨s', last'⟩, s!"{showRes r} {showNeed nd} {showCache s'.cache} {showMsg s'.m0} {showMsg s'.m1}")
 
-def bad (s : State) : State × String := (s, "bad-op")
+def bad (s : Sess) : Sess × String := (s, "bad-op")
 
-def c31Step (s : State) (line : String) : State × String :=
+/-- value field of `set` / `raw`: `none`, `last`, `rawof0`, `rawof1`, or hex bytes -/
+def parseVal (ss : Sess) (v : String) : Option (Option Bytes) :=
+  if v = "last" then some (some ss.last)
+  else if v = "rawof0" then some ss.st.m0.raw
+  else if v = "rawof1" then some ss.st.m1.raw
+  else parseOptBytes v
+
+def c31Step (s : Sess) (line : String) : Sess × String :=
   match fields line with
-  | ["reset"] => (init, "ok")
+  | ["reset"] => (⟨init, []⟩, "ok")
   | ["dec", x, c, e, f] =>
     match hexOr x, hexOr c, hexOr e, parseFresh f with
     | some x, some c, some e, some f => doOp s (.dec x c e) f
@@ -60,7 +79,7 @@ def c31Step (s : State) (line : String) : State × String :=
     | some d, some c, some e, some f => doOp s (.enc d c e) f
     | _, _, _, _ => bad s
   | ["set", i, v, f] =>
-    match parseBool i, parseOptBytes v, parseFresh f with
+    match parseBool i, parseVal s v, parseFresh f with
     | some i, some v, some f => doOp s (.setContent i v) f
     | _, _, _ => bad s
   | ["get", i, st, f] =>
@@ -76,7 +95,7 @@ def c31Step (s : State) (line : String) : State × String :=
     | some i, some c, some f => doOp s (.mencode i c) f
     | _, _, _ => bad s
   | ["raw", i, v] =>
-    match parseBool i, parseOptBytes v with
+    match parseBool i, parseVal s v with
     | some i, some v => doOp s (.setRaw i v) .verr
     | _, _ => bad s
   | ["ce", i, v] =>
@@ -97,4 +116,4 @@ def c31Step (s : State) (line : String) : State × String :=
     | none => bad s
   | _ => bad s
 
-def main : IO Unit := runState c31Step init
+def main : IO Unit := runState c31Step ⟨init, []⟩
